@@ -1383,7 +1383,13 @@ func init() {
 		if !ok {
 			e.fail("freshslice() needs a slice")
 		}
-		return Sc{Or(Eq(sl.Arr, IntLit(0)), App(SBool, ">=", sl.Arr, e.c.allocInit()))}, tBool
+		// allocated since the `old` state of this evaluation (function entry for the function's
+		// own clauses, the call for a callee's postcondition)
+		base := e.c.allocInit()
+		if e.old != nil {
+			base = e.c.allocCur(e.old)
+		}
+		return Sc{Or(Eq(sl.Arr, IntLit(0)), App(SBool, ">=", sl.Arr, base))}, tBool
 	}
 	// arrof(s): the backing array of a slice, as an opaque reference
 	specBuiltins["arrof"] = func(e *SpecEnv, n *ast.CallExpr) (SV, types.Type) {
